@@ -240,6 +240,7 @@ type probe struct {
 	cfg, fs, vrnt int
 	name          string
 	pers          bool // runs on the history's long-lived logger of this configuration (fresh in the baseline)
+	deep          int  // extra call frames below the log call (stacks deeper than the pooled 64-frame storage)
 }
 
 // persLogger is a long-lived logger with an accumulated context that ends inside an open
@@ -275,6 +276,14 @@ func init() {
 	// slog probes
 	for c := 0; c < 2; c++ {
 		catalogue = append(catalogue, probe{idx: len(catalogue), cfg: c, fs: -1, name: cfgs[c].name + "/slog-handler"})
+	}
+	// probes whose call stack is deeper than the pooled stack storage
+	for _, c := range []int{1, 3} {
+		for _, f := range []int{10, 14} {
+			for _, d := range []int{70, 300} {
+				catalogue = append(catalogue, probe{idx: len(catalogue), cfg: c, fs: f, vrnt: 0, name: fmt.Sprintf("deep-stack-%d:%s/%s", d, cfgs[c].name, fieldSets[f].name), deep: d})
+			}
+		}
 	}
 	// probes on long-lived loggers
 	for c := range cfgs {
@@ -340,6 +349,12 @@ func runProbe(p probe, pers []*persLogger) []byte {
 	go func() {
 		if l == nil {
 			l = cfgs[p.cfg].build(out, eo)
+		}
+		if p.deep > 0 {
+			var res string
+			recurse(p.deep, func() { res = probeBody(p, l) })
+			done <- res
+			return
 		}
 		done <- probeBody(p, l)
 	}()
